@@ -59,6 +59,8 @@ pub fn exec(tok: &[&str]) -> String {
             ints(&vh::felt_ifft(&vh::felt_hadamard_mul(&a, &b)))
         }
         "ref_negacyc" => ints(&crate::c11::schoolbook(&parse_ints::<u64>(tok[1]), &parse_ints::<u64>(tok[2]))),
+        // ---- hash to point (C14) -------------------------------------------------------------------
+        "hash_to_point" => ints(&vh::hash_to_point(&unhex(tok[2]), tok[1].parse().unwrap())),
         _ => panic!("bad-op {}", tok[0]),
     }
 }
